@@ -4,10 +4,10 @@
     pedantic repair of new dependencies): every program, every history, every fuel.
     and ([C01_fw_sound]) for the fragment with FIREWALL queries and their transitive-firewall-
     callee bookkeeping, and ([C01_model_sound]) for the full model [Engine/Model.v] on programs
-    with Normal, Firewall and Projection queries.  External inputs and unordered groups are
-    covered by the same full model, which is tied to the code by the correspondence run and
-    judged by the from-scratch oracle on every run, but for them its soundness is not proved
-    (the statement for all query kinds is the property text itself). *)
+    with Normal, Firewall and Projection queries, unordered groups and ([C01_model_sound_x])
+    external inputs, i.e. every query kind of the property.  What stays outside the theorems:
+    the model runs the parallel tasks of one request one after the other, and it is tied to the
+    code by the correspondence run (answers, executions, bookkeeping) rather than by proof. *)
 From QV Require Import Common.Prelude Engine.Model Engine.Core Engine.CoreSpec Engine.CoreSound.
 From QV Require Import Engine.Fw Engine.FwSpec Engine.FwSound.
 From QV Require Import Engine.MdlSpec Engine.MdlSound.
@@ -71,9 +71,28 @@ Theorem C01_model_sound :
     MdlSpec p (inputs_after (firstn i ops)) n z.
 Proof. exact MdlSound.model_sound_g. Qed.
 
+(** ... and with EXTERNAL INPUTS: programs may read [KExternal] nodes, histories may change the
+    world ([OSetWorld]), refresh ([OSession _ true]) and ask for an external input directly.  An
+    external input is run on first demand and on refresh only, so its committed value is the
+    world's answer at the last operation that ran it: [ext_after] replays that from the history
+    and the executions the model reports ([r_execs], which the correspondence run compares
+    with the real engine). *)
+Theorem C01_model_sound_x :
+  forall p ops i n r z, wf_model_x p ->
+    model_sessions_fuelled p ops i ->
+    nth_error ops i = Some (OQuery n) ->
+    nth_error (run_history p init_state ops) i = Some r ->
+    r_out r = RValue z ->
+    MdlSpecX p (inputs_after (firstn i ops),
+                ext_after (firstn (S i) ops) (firstn (S i) (run_history p init_state ops))) n z.
+Proof. exact MdlSound.model_sound_x. Qed.
+
 Theorem C01_model_unguarded_refuted : ~ model_sound_statement_unguarded.
 Proof. exact MdlSound.model_sound_unguarded_refuted. Qed.
 
+Check mexx_prog_wf. (* external inputs: first demand, unseen world change, refresh, direct query *)
+Check mexx_run.
+Check mexx_spec.
 Check mexg_prog_wf. (* ... and a projection over an unordered group of firewalls *)
 Check mexg_run.
 Check mex_prog_wf.  (* wf_model is satisfiable: a projection switching between firewalls, a projection over a projection *)
@@ -90,4 +109,5 @@ Print Assumptions C01_core_no_panic.
 Print Assumptions C01_fw_sound.
 Print Assumptions C01_fw_unguarded_refuted.
 Print Assumptions C01_model_sound.
+Print Assumptions C01_model_sound_x.
 Print Assumptions C01_model_unguarded_refuted.
